@@ -11,7 +11,7 @@ HERE = os.path.dirname(os.path.abspath(__file__))
 TEXT = {
     "C01": ("other", "the only tier-A part: nested prefix operators never glue into another token, whatever the operand generates to (Generator.neg_sql never starts with '--', bitwisenot_sql never with '~~'; proved over an uninterpreted operand text); time.format_time could not be brought under contract (string joins over symbolic lists time out in every solver); the round-trip fixpoint is a run-time contract check of Dialect.parse/generate on an enumerated grammar x all dialects", "3 C01, 9.1"),
     "C02": ("other", "the NULL-ordering clause proved for all dialect pairs (slice contracts on Parser._parse_ordered and Generator.ordered_sql against the eff_first spec); result equality itself is a bounded run-time contract check of sqlglot.transpile on the real engines (sqlite3 3.40, duckdb 1.5: enumerated query families x 3 NULL-bearing databases x the 4 dialect pairs, plus a MySQL target emulated on DuckDB for the CASE simulation)", "3 C02, 9.6"),
-    "C04": ("other", "'cannot terminate its own quoting' decided for all strings by the RegTrans automaton back end for comments (sanitize_comment) and quoted identifiers (identifier_sql doubling, 34 dialects) on the real replace chains; escape_str / sanitize_comment / _replace_line_breaks proved to be functions of their arguments (purity frames); string-literal escaping and the decode-side lex-back round trip are a bounded exhaustive check (all strings up to a length over a per-dialect adversarial alphabet)", "3 C04, 9.1"),
+    "C04": ("other", "'cannot terminate its own quoting' decided for all strings by the RegTrans automaton back end for comments (sanitize_comment) and quoted identifiers (identifier_sql doubling, 34 dialects) on the real replace chains; escape_str / sanitize_comment / _replace_line_breaks proved to be functions of their arguments (purity frames); string-literal escaping and the decode-side lex-back round trip are a bounded exhaustive check (all strings up to a length over a per-dialect adversarial alphabet), also with the value placed in statement templates that go through rewrites (DISTINCT ON / QUALIFY elimination, Athena engine choice)", "3 C04, 9.1, 9.11"),
     "C05": ("other", "cursor discipline, index restore, error funnel proved for all states by PyVC; index monotonicity of the retreating _parse_* methods (53 of 77 proved, the rest undecided at a recorded baseline) and progress of the parser's while loops (86 of 90 token loops) by projection-mode VCs; total behaviour on mutated and growing inputs is a bounded step-counted run-time check", "3 C05, 9.1"),
     "C06": ("other", "connector / comparison decision tables proved sound in 3VL for all literals; every rewrite step of simplify/normalize checked equivalent under all order-relevant assignments on an exhaustive expression space up to a depth (bounded)", "3 C06"),
     "C07": ("other", "sep, maybe_comment and indent (slices) and the sentinel restoration in generate proved, with a frame scan that the layout options are stored only in Generator.__init__; sentinel replacement decided for all strings by RegTrans; option product parse-back is a bounded run-time contract check", "3 C07"),
@@ -19,9 +19,9 @@ TEXT = {
     "C09": ("other", "copy=True => modifies only fresh objects proved for the copy funnels (maybe_copy, maybe_parse, the optimize entry copy, _apply_conjunction_builder, _apply_builder) and the undo journal; fingerprint-unchanged checked at run time on corpus x functions x dialects (bounded)", "3 C09"),
     "C10": ("other", "normalize_identifier idempotent and case-sensitive identifiers untouched proved for all strategies; Scope.branch proved to give each child scope its own CTE map (inherited definitions overridden name by name by the inner ones, never the parent's dict object); qualify postcondition + idempotence bounded", "3 C10"),
     "C11": ("other", "operator kernels only: Kleene AND/OR/NOT, IN, null_if_any, filter_nulls, unmatched-row rule proved against SQL 3VL for all values; joins/set operations/aggregates vs a bag spec on all tiny tables (bounded). Agreement of execute() with an external engine is not claimed", "3 C11"),
-    "C12": ("other", "serde._load proved to rebuild a node that carries exactly the payload's type / comments / meta while writing nothing that existed before (the only tier-A part; serde.dump's stack loop could not be brought under contract); dump/load/json/pickle/copy round trip on every node class x arg kinds, the corpus, and trees with marker comments is a bounded run-time contract check", "3 C12, 9.8"),
+    "C12": ("other", "serde._load proved to rebuild a node that carries exactly the payload's type / comments / meta while writing nothing that existed before (the only tier-A part; serde.dump's stack loop could not be brought under contract); dump/load/json/pickle/copy round trip on every node class x arg kinds, the corpus, dialect statements whose trees hold explicit None / empty-list args or non-node values, and trees with marker comments is a bounded run-time contract check", "3 C12, 9.8, 9.9, 9.11"),
     "C13": ("other", "tokenizer _advance/_add offset and line/col consistency, raise_error position transfer proved; token order/gap/position relation on enumerated layouts bounded", "3 C13"),
-    "C14": ("other", "the whole error-level relation at the funnel (raise_error, validate_expression, check_errors, _try_parse, concat_messages, Generator.unsupported/generate tail) proved for all states, plus mechanical frame scans that error_level / unsupported_level are read nowhere else; four-run relation end to end bounded", "3 C14"),
+    "C14": ("other", "the whole error-level relation at the funnel (raise_error, validate_expression, check_errors, _try_parse, concat_messages, Generator.unsupported/generate tail) proved for all states, plus mechanical frame scans that error_level / unsupported_level are read nowhere else and that no generator method re-enters generate(); four-run relation end to end (levels called in an input-dependent rotation and once more in reverse order; Dialect.parse_into as well) bounded", "3 C14, 9.9, 9.11"),
     "C15": ("other", "reused Parser/Tokenizer == fresh one by mechanical frame scans comparing reset() with __init__ (syntactic) and a proved fresh-state assertion at TokenizerCore.tokenize; generator per-call frame scan; MappingSchema.find answers independent of earlier strict / lenient questions proved; hash-seed / call-order relation in subprocesses, and class-level tables unchanged by loading or defining other dialects, bounded", "3 C15"),
     "C17": ("other", "Scope.branch (the step that decides which CTE definition a name resolves to) proved: inner definitions shadow inherited ones, key by key, in a fresh map; lineage leaves == construction-recorded flow on an enumerated query family and three presentation invariances are a bounded run-time contract check", "3 C17"),
     "C18": ("other", "cache coherence of MappingSchema.find/add_table w.r.t. the abstract view proved (PyVC), the name / type memo tables proved to answer as the uncached computation of the ARGUMENT would; all interleavings up to a length vs a freshly built schema bounded", "3 C18"),
